@@ -304,3 +304,5 @@ def _concrete_replay(env, cfg):
 
 META['explanation'] += ' The constructor group also runs with NumPy-integer capacities (int8 ... int64): the proxy emits the obligation no_silent_integer_wraparound whenever a NumPy integer narrower than 64 bit meets a weak Python int (NEP 50); a refutation is replayed on the real class with that capacity.'
 META['assumptions'].append('64-bit integer counters do not overflow (no stream is that long); narrower NumPy integers are checked')
+
+META['explanation'] += ' The step is also taken with an unlabelled arrival (y=None) on a storage that keeps targets.'
